@@ -62,7 +62,12 @@ def check_pairs(acc: Acc, name: str, grid: list[float], exact_grid: bool, lattic
     is_t = name in R.TNORMS
     g = np.array(grid)
     A, B = np.meshgrid(g, g, indexing="ij")
+    A0, B0 = A.copy(), B.copy()
     M = impl.compute(A, B)  # 2-D array entry point
+    if not (np.array_equal(A, A0) and np.array_equal(B, B0)):
+        acc.violate("input-array-modified", {"norm": name}, {"norm": name, "a": 0.5, "b": 0.5}, "operands unchanged", "overwritten",
+                    f"{name}.compute modifies the caller's arrays")
+        return
     if np.shape(M) != A.shape:
         acc.violate("array-shape", {"norm": name}, {"norm": name, "grid": grid}, A.shape, np.shape(M),
                     f"{name}.compute on a 2-D array returned shape {np.shape(M)}")
